@@ -256,6 +256,22 @@ def rr07CosmicRayRateTree : Expr :=
 
 def rr07CosmicRayTree (s : SpecInfo) : Expr := rr07GuardTree "eb_crd" s rr07CosmicRayRateTree
 
+/-- `opt_crd * cov * duty * nMono * densites * (zeta/zism) * ν₀ * exp(-eb/Tcr)` -/
+def hh93CosmicRayTree (s : SpecInfo) : Expr :=
+  mul (mul (mul (mul (mul (mul (mul (V "opt_crd") (V "cov")) (V "duty")) (V "nMono")) (V "densites")) (dvd (V "zeta") (V "zism")))
+    (nu0Tree s)) (expE (dvd (.neg (.var ("eb_".toList ++ s.alias))) (V "Tcr")))
+
+/-- `opt_uvd * cov * (G0*habing*exp(-Av*3.02) + crphot * (zeta/zism)) * Y * nMono * garea` -/
+def hh93PhotonTree (s : SpecInfo) : Expr :=
+  mul (mul (mul (mul (mul (V "opt_uvd") (V "cov"))
+    (.bin ['+'] (mul (mul (V "G0") (V "habing")) (expE (mul (.neg (V "Av")) (N "3.02")))) (mul (V "crphot") (dvd (V "zeta") (V "zism")))))
+    (M s.yieldId)) (V "nMono")) (V "garea")
+
+/-- `pi * rG * rG * sqrt(8.0*kerg*(Tgas)/pi/amu/meu)` -/
+def hh93ECaptureTree : Expr :=
+  mul (mul (mul (V "pi") (V "rG")) (V "rG"))
+    (sqrtE (dvd (dvd (dvd (mul (mul (N "8.0") (V "kerg")) (V "Tgas")) (V "pi")) (V "amu")) (V "meu")))
+
 /-- do the emitted texts of these laws parse to exactly the trees above (all sign classes, all species cases)? -/
 def lawTreesMatch : Bool :=
   (litClasses 0).all fun a => specCases.all fun s =>
@@ -267,6 +283,10 @@ def lawTreesMatch : Bool :=
     (match grainText .rr07x .thermal "" { tdust := "Tdust" } a s s with | .ok t => parseC t == some (rr07xThermalTree "Tdust" s) | _ => false) &&
     (match grainText .rr07 .h2des "" {} a s s with | .ok t => parseC t == some (rr07H2Tree s) | _ => false) &&
     (match grainText .rr07x .h2des "" {} a s s with | .ok t => parseC t == some (rr07H2Tree s) | _ => false) &&
-    (match grainText .rr07 .cosmicray "" {} a s s with | .ok t => parseC t == some (rr07CosmicRayTree s) | _ => false)
+    (match grainText .rr07 .cosmicray "" {} a s s with | .ok t => parseC t == some (rr07CosmicRayTree s) | _ => false) &&
+    (match grainText .hh93 .cosmicray "" {} a s s with | .ok t => parseC t == some (hh93CosmicRayTree s) | _ => false) &&
+    (match grainText .hh93i .cosmicray "" {} a s s with | .ok t => parseC t == some (hh93CosmicRayTree s) | _ => false) &&
+    (match grainText .hh93 .photon "" {} a s s with | .ok t => parseC t == some (hh93PhotonTree s) | _ => false) &&
+    (match grainText .hh93 .ecapture "" {} a s s with | .ok t => parseC t == some hh93ECaptureTree | _ => false)
 
 end Naunet.Grain
